@@ -349,7 +349,8 @@ def run(ctx):
                 if i % 400 == 0:
                     ctx.sample({"op": line[:300], "result": a[:200]})
             else:
-                ctx.violation(cell, "%s [%s]: op `%s` impl=%s model=%s" % (text, v, line[:260], a[:230], b[:420]),
+                key = cell if v == "asan" else cell + "@" + v      # a non-default back-end never masks the default build
+                ctx.violation(key, "%s [%s]: op `%s` impl=%s model=%s" % (text, v, line[:260], a[:230], b[:420]),
                               {"kind": "failing-input", "op": line, "expr": expr, "impl": a, "expected": b, "variant": v,
                                "stderr": err[-1500:] if a.startswith("FAULT") else ""}, found_input=True)
     return finish(ctx)
